@@ -776,3 +776,230 @@ class DiskHarness(object):
     def _aio_read(self, fd, offset, size, callback):
         buf = os.pread(fd, size, offset)
         callback(buf, len(buf), 0)
+
+
+# --------------------------------------------------------- RESP fake server
+class RespServer(object):
+    """An in-process redis SERVER for the real redis-py client: a gevent
+    StreamServer on a loopback socket speaking RESP2 for exactly the commands
+    RedisStorage issues, backed by a FakeRedis (so the state can be inspected
+    and half-written entries injected).  `latency` (seconds, a few ms at most)
+    is waited cooperatively before every command is carried out, so that the
+    commands of many greenlets are genuinely in flight at once.  Unknown
+    commands (CLIENT SETINFO, HELLO ...) get -ERR like an old server."""
+
+    def __init__(self, fake=None, latency=0.0):
+        from gevent.server import StreamServer
+        self.fake = fake or FakeRedis()
+        self.latency = latency
+        self.in_flight = 0
+        self.max_in_flight = 0
+        self.commands = 0
+        self.handlers = 0
+        self.server = StreamServer(('127.0.0.1', 0), self._handle)
+        self.server.start()
+        self.port = self.server.server_port
+
+    def stop(self):
+        self.quiesce()
+        self.server.stop(timeout=0)
+        self.server.close()
+
+    def reset(self, fake, latency=0.0):
+        """a fresh data set behind the same listening socket"""
+        self.fake = fake
+        self.latency = latency
+        self.in_flight = self.max_in_flight = self.commands = 0
+
+    def quiesce(self):
+        """wait (cooperatively, briefly) until every connection handler has closed its socket"""
+        for _ in range(2000):
+            if self.handlers == 0:
+                return
+            gevent.sleep(0.0005)
+
+    _shared = None
+
+    @classmethod
+    def shared(cls):
+        if cls._shared is None:
+            cls._shared = cls()
+        return cls._shared
+
+    @classmethod
+    def stop_shared(cls):
+        if cls._shared is not None:
+            cls._shared.stop()
+            cls._shared = None
+
+    # -- protocol
+    @staticmethod
+    def _read_command(f):
+        line = f.readline()
+        if not line:
+            return None
+        if not line.startswith(b'*'):
+            return line.split()
+        n = int(line[1:])
+        args = []
+        for _ in range(n):
+            hdr = f.readline()
+            assert hdr.startswith(b'$'), hdr
+            ln = int(hdr[1:])
+            data = f.read(ln + 2)[:ln]
+            args.append(data)
+        return args
+
+    @classmethod
+    def _enc(cls, v, proto=2):
+        if v is None:
+            return b'_\r\n' if proto == 3 else b'$-1\r\n'
+        if isinstance(v, dict):
+            return b'%%%d\r\n' % len(v) + b''.join(cls._enc(k, proto) + cls._enc(x, proto) for k, x in v.items())
+        if isinstance(v, bool):
+            v = int(v)
+        if isinstance(v, int):
+            return b':%d\r\n' % v
+        if isinstance(v, bytes):
+            return b'$%d\r\n%s\r\n' % (len(v), v)
+        if isinstance(v, _Status):
+            return b'+' + v.text + b'\r\n'
+        if isinstance(v, _Error):
+            return b'-' + v.text + b'\r\n'
+        if isinstance(v, (list, tuple)):
+            return b'*%d\r\n' % len(v) + b''.join(cls._enc(x, proto) for x in v)
+        raise TypeError(type(v))
+
+    def _handle(self, sock, addr):
+        self.handlers += 1
+        f = sock.makefile('rb')
+        multi = None
+        proto = [2]
+
+        def send(v):
+            sock.sendall(self._enc(v, proto[0]))
+        try:
+            while True:
+                args = self._read_command(f)
+                if args is None:
+                    return
+                name = args[0].upper()
+                if name == b'HELLO':
+                    # redis-py >= 5 asks for RESP3 by default; redis >= 6 answers with a map
+                    if len(args) > 1 and args[1] == b'3':
+                        proto[0] = 3
+                        send({b'server': b'redis', b'version': b'7.0.0', b'proto': 3, b'id': 1,
+                              b'mode': b'standalone', b'role': b'master', b'modules': []})
+                    elif len(args) > 1 and args[1] != b'2':
+                        send(_Error(b'NOPROTO unsupported protocol version'))
+                    else:
+                        send([b'server', b'redis', b'version', b'7.0.0', b'proto', 2])
+                    continue
+                if name == b'MULTI':
+                    multi = []
+                    send(_Status(b'OK'))
+                    continue
+                if name == b'EXEC' and multi is not None:
+                    cmds, multi = multi, None
+                    self._wait()
+                    try:
+                        out = [self._execute(c) for c in cmds]      # atomic: no yield in between
+                    finally:
+                        self.in_flight -= 1
+                    send(out)
+                    continue
+                if multi is not None:
+                    multi.append(args)
+                    send(_Status(b'QUEUED'))
+                    continue
+                if name == b'BLPOP':
+                    send(self._blpop(args))
+                    continue
+                self._wait()
+                try:
+                    out = self._execute(args)
+                finally:
+                    self.in_flight -= 1
+                send(out)
+        except (ConnectionError, OSError):
+            return
+        finally:
+            try:
+                f.close()
+            except Exception:
+                pass
+            try:
+                sock.close()
+            except Exception:
+                pass
+            self.handlers -= 1
+
+    def _wait(self):
+        self.in_flight += 1
+        self.max_in_flight = max(self.max_in_flight, self.in_flight)
+        self.commands += 1
+        if self.latency:
+            gevent.sleep(self.latency)
+
+    def _blpop(self, args):
+        keys = args[1:-1]
+        while True:
+            r = self.fake.blpop(keys)
+            if r is not None:
+                return list(r)
+            gevent.sleep(0.001)           # BLPOP ... 0 blocks, cooperatively
+
+    def _execute(self, args):
+        name = args[0].upper()
+        r = self.fake
+        try:
+            if name == b'HSETNX':
+                return r._hsetnx(args[1], args[2], args[3])
+            if name == b'HSET':
+                n = 0
+                for i in range(2, len(args), 2):
+                    n += r._hset(args[1], args[i], args[i + 1])
+                return n
+            if name == b'HMSET':
+                for i in range(2, len(args), 2):
+                    r._hset(args[1], args[i], args[i + 1])
+                return _Status(b'OK')
+            if name == b'HGET':
+                return r._hash(args[1]).get(args[2])
+            if name == b'HMGET':
+                h = r._hash(args[1])
+                return [h.get(f) for f in args[2:]]
+            if name == b'HINCRBY':
+                h = r._hash(args[1], True)
+                n = int(h.get(args[2], b'0')) + int(args[3])
+                h[args[2]] = b'%d' % n
+                return n
+            if name == b'KEYS':
+                saved, r.gate = r.gate, (lambda d: None)
+                try:
+                    return r.keys(args[1])
+                finally:
+                    r.gate = saved
+            if name == b'DEL':
+                n = 0
+                for k in args[1:]:
+                    if r.data.pop(k, None) is not None:
+                        n += 1
+                return n
+            if name == b'RPUSH':
+                return r._rpush(args[1], *args[2:])
+            if name == b'SELECT' or name == b'PING':
+                return _Status(b'OK') if name == b'SELECT' else _Status(b'PONG')
+        except _ResponseError as e:
+            return _Error(str(e).encode())
+        return _Error(b"ERR unknown command '" + args[0] + b"'")
+
+
+class _Status(object):
+    def __init__(self, text):
+        self.text = text
+
+
+class _Error(object):
+    def __init__(self, text):
+        self.text = text
